@@ -4,6 +4,8 @@
 #include "iwjson_internal.h"
 #include "iwxstr.h"
 #include <ctype.h>
+#include <stdlib.h>
+#include <string.h>
 #include "probe.h"
 
 static void row(const char *name, jbl_print_flags_t pf, int upto) {
@@ -24,6 +26,51 @@ static void row(const char *name, jbl_print_flags_t pf, int upto) {
   printf("].\n");
 }
 
+// what the exported printer callbacks do with ONE call pt(data, size, ch, count, op): a row is the status (0 = ok, 1 = error)
+// followed by the bytes that arrived in the sink (xstr, FILE*), or the number added (count printer)
+typedef iwrc (*pt_fn)(const char*, int, char, int, void*);
+static void sink_row(int first, int kind, const char *data, int size, char ch, int count) {
+  printf("%s[", first ? "" : ";");
+  if (kind == 0) {
+    struct iwxstr *x = iwxstr_create_empty();
+    iwrc rc = jbl_xstr_json_printer(data, size, ch, count, x);
+    printf("%d", rc ? 1 : 0);
+    for (size_t i = 0; i < iwxstr_size(x); ++i) printf(";%d", (int) (unsigned char) iwxstr_ptr(x)[i]);
+    iwxstr_destroy(x);
+  } else if (kind == 1) {
+    char *mem = 0; size_t msz = 0;
+    FILE *f = open_memstream(&mem, &msz);
+    iwrc rc = jbl_fstream_json_printer(data, size, ch, count, f);
+    fclose(f);
+    printf("%d", rc ? 1 : 0);
+    for (size_t i = 0; i < msz; ++i) printf(";%d", (int) (unsigned char) mem[i]);
+    free(mem);
+  } else {
+    int cnt = 0;
+    iwrc rc = jbl_count_json_printer(data, size, ch, count, &cnt);
+    printf("%d;%d", rc ? 1 : 0, cnt);
+  }
+  printf("]");
+}
+
+// mode 0: pt(0, 0, (char) b, 1); 1: pt(0, 0, (char) b, 3); 2: pt(0, 0, (char) b, 0);
+// mode 3: pt({b, 'x', 0}, 2, 0, 0); 4: pt({b, 'x', 0}, -1, 0, 2); 5: pt({'y', b, 0}, 1, 0, 1)
+static void sink_tbl(const char *name, int kind, int mode) {
+  printf("Definition %s : list (list Z) := [", name);
+  for (int b = 0; b < 256; ++b) {
+    char d1[3] = { (char) b, 'x', 0 }, d2[3] = { 'y', (char) b, 0 };
+    switch (mode) {
+      case 0: sink_row(!b, kind, 0, 0, (char) b, 1); break;
+      case 1: sink_row(!b, kind, 0, 0, (char) b, 3); break;
+      case 2: sink_row(!b, kind, 0, 0, (char) b, 0); break;
+      case 3: sink_row(!b, kind, d1, 2, 0, 0); break;
+      case 4: sink_row(!b, kind, d1, -1, 0, 2); break;
+      default: sink_row(!b, kind, d2, 1, 0, 1); break;
+    }
+  }
+  printf("].\n");
+}
+
 int main(void) {
   ZC(JBL_MAX_NESTING_LEVEL);
   ZC(JBL_PRINT_PRETTY); ZC(JBL_PRINT_CODEPOINTS); ZC(JBL_PRINT_PRETTY_INDENT2); ZC(JBL_PRINT_PRETTY_INDENT4);
@@ -35,5 +82,15 @@ int main(void) {
   // what the string printer writes for the one-byte string [b] (quotes included); empty row = error
   row("jtext_esc_tbl", 0, 256);
   row("jtext_esc_cp_tbl", JBL_PRINT_CODEPOINTS, 128);
+  // the C type `char` the callbacks receive their single character in
+  printf("Definition jtext_char_signed : bool := %s.\n", ((char) 0xff) < 0 ? "true" : "false");
+  static const char *kinds[] = { "xstr", "fstream", "count" };
+  for (int k = 0; k < 3; ++k) {
+    for (int m = 0; m < 6; ++m) {
+      char nm[64];
+      snprintf(nm, sizeof(nm), "jtext_%s_tbl%d", kinds[k], m);
+      sink_tbl(nm, k, m);
+    }
+  }
   return 0;
 }
